@@ -31,3 +31,37 @@ Theorem C16_nonvacuous :
   exists w ops, wf w /\ Forall (op_ok (w_data w)) ops /\ length ops = 6%nat /\
                 run true w ops = [OUnit; OUnit; OBytes [10; 11]; OInt 1; OBytes [21; 22; 23]; OBytes [12; 13]].
 Proof. exact refines_nonvacuous. Qed.
+
+(* The stream model (the repaired code, fixed = true) IS pycdlibio.py as TRANSLATED from the current source on this run
+   (Gen/GenIO.v: PyCdlibIO.seek / readall / read / readinto; `self._fp.seek(p, 0)` = the shared file position becomes p,
+   `self._fp.read(n)` = PyIO.py_fread at the shared position): dropping the seek before a read, not advancing the offset in
+   readinto, or changing a bound in seek changes the generated definitions and breaks this theorem. *)
+From PV.Base Require PyIO.
+From PV.Gen Require GenIO.
+From PV.Proofs Require StreamGenProofs.
+Theorem C16_model_is_the_source : forall w i s, nth_error (Stream.w_streams w) i = Some s ->
+  (forall off wh,
+     match GenIO.pyio_seek (Stream.st_off s) (Stream.st_len s) (Stream.st_start s) (Stream.w_pos w) off wh with
+     | Some (r, o', p') => Stream.do_seek w i s off wh = (Stream.upd w i (Stream.with_off s o') p', Stream.OInt r)
+     | None => Stream.do_seek w i s off wh = (w, Stream.ORefused)
+     end) /\
+  match GenIO.pyio_readall (Stream.st_off s) (Stream.st_len s) (Stream.st_start s) (Stream.w_data w) (Stream.w_pos w) with
+  | Some (d, o', p') => Stream.do_readall true w i s = (Stream.upd w i (Stream.with_off s o') p', Stream.OBytes d)
+  | None => False
+  end /\
+  (forall size,
+     match GenIO.pyio_read (Stream.st_off s) (Stream.st_len s) (Stream.st_start s) (Stream.w_data w) (Stream.w_pos w) size with
+     | Some (d, o', p') => Stream.do_read true w i s (Some size) = (Stream.upd w i (Stream.with_off s o') p', Stream.OBytes d)
+     | None => False
+     end) /\
+  (forall b : list Z,
+     match GenIO.pyio_readinto (Stream.st_off s) (Stream.st_len s) (Stream.st_start s) (Stream.w_data w) (Stream.w_pos w) b with
+     | Some (n, o', p', d) =>
+         Stream.do_readinto true w i s (Prim.zlen b) = (Stream.upd w i (Stream.with_off s o') p', Stream.OBytes d) /\ n = Prim.zlen d
+     | None => False
+     end).
+Proof.
+  intros w i s H. split; [intros off wh; apply StreamGenProofs.sg_seek|].
+  split; [apply StreamGenProofs.sg_readall, H|]. split; [intros size; apply StreamGenProofs.sg_read, H|].
+  intros b; apply StreamGenProofs.sg_readinto, H.
+Qed.
